@@ -56,6 +56,9 @@ void *pool_build(uint64_t seed) {
     for (const char *n : NUMS) p->nums.push_back(ST::string::from_validated(n, std::strlen(n)));
     p->strs.push_back(ST::string::from_validated("the quick brown fox jumps over the lazy dog, the end", 52));
     p->strs.push_back(ST::string::from_validated("a,b,,c;d e\tf", 12));
+    // repetitive text: many matches of the same needle, many pieces, many tokens (random text has each character about once in a hundred)
+    { std::string rep; for (int i = 0; i < 24; i++) rep += "the quick brown fox, "; p->strs.push_back(ST::string::from_validated(rep.data(), rep.size())); }
+    { std::string rep; for (int i = 0; i < 40; i++) rep += (i % 3) ? "ab;c d," : "\xC3\xA9e e,"; p->strs.push_back(ST::string::from_validated(rep.data(), rep.size())); }
     return p;
 }
 void pool_destroy(void *pool) { delete static_cast<Pool *>(pool); }
